@@ -425,6 +425,8 @@ pub fn run_c09(ctx: &Ctx) {
     // typed async target with an unchecked value and vice versa
     judge(idx, "async/typed+unchecked-return".into(), false, false, "async u32 <- unchecked".into(), None, &mut |inj| inj.when_called_async(injectorpp::async_func!(as_u32(), u32)).will_return_async(unsafe { injectorpp::async_return_unchecked!(5u32, u32) }), &mut accepted, &mut refused, &mut by_msg, &mut lifetime_outcomes);
     idx += 1;
+    judge(idx, "async/unchecked-target+typed-return".into(), false, false, "async unchecked <- u32".into(), None, &mut |inj| unsafe { inj.when_called_async_unchecked(injectorpp::async_func_unchecked!(as_u32())) }.will_return_async(injectorpp::async_return!(5u32, u32)), &mut accepted, &mut refused, &mut by_msg, &mut lifetime_outcomes);
+    idx += 1;
     let bm = by_msg.iter().fold(J::new(), |j, (k, v)| j.n(k, *v));
     out::summary(&J::new().n("family_members", fam.len()).n("pairs_total", idx).n("accepted", accepted).n("refused", refused).o("outcomes", bm).arr_s("lifetime_spelling_pairs_not_judged", &lifetime_outcomes));
 }
